@@ -24,14 +24,22 @@ def scratch_copy():
 
 
 def run_one(patch, seed, with_tests=False):
-    name = os.path.basename(patch)[: -len(".patch")]
-    prop = name.split("-")[0]
+    if os.path.basename(patch) == "patch.diff":  # /verif/seeded/<id>/patch.diff (+ meta.json)
+        name = "seeded/" + os.path.basename(os.path.dirname(patch))
+        prop = json.load(open(os.path.join(os.path.dirname(patch), "meta.json")))["property"]
+    else:
+        name = os.path.basename(patch)[: -len(".patch")]
+        prop = name.split("-")[0]
     d = scratch_copy()
     try:
         r = subprocess.run(["patch", "-p1", "-s", "-d", d, "-i", patch], capture_output=True, text=True)
         if r.returncode != 0:
             return {"mutant": name, "status": "patch-failed", "detail": r.stdout + r.stderr}
         res = {"mutant": name, "property": prop}
+        demo = os.path.join(os.path.dirname(patch), "demo.py")
+        if os.path.basename(patch) == "patch.diff" and os.path.exists(demo):
+            dm = subprocess.run(["/venv/bin/python", demo], cwd=d, env=dict(os.environ, PYTHONPATH=d), capture_output=True, text=True)
+            res["demo_rc_with_change"] = dm.returncode
         if with_tests:
             t = subprocess.run(
                 ["/venv/bin/python", "-m", "pytest", "-q", "-p", "no:cacheprovider", "-x", "--timeout=900", "tests", "--deselect", "tests/test_config_creator.py::TestQartodConfigurator", "--deselect", "tests/test_utils.py::TestReadXarrayConfig", "--deselect", "tests/test_performance.py"],
@@ -59,8 +67,8 @@ def run_one(patch, seed, with_tests=False):
 def main(seed=0):
     sel = os.environ.get("VERIF_MUTANTS", "")
     with_tests = bool(os.environ.get("VERIF_MUTANT_TESTS"))
-    patches = sorted(glob.glob(os.path.join(VERIF, "mutants", "*.patch")))
-    patches = [p for p in patches if os.path.basename(p).startswith(sel)]
+    patches = sorted(glob.glob(os.path.join(VERIF, "mutants", "*.patch"))) + sorted(glob.glob(os.path.join(VERIF, "seeded", "*", "patch.diff")))
+    patches = [p for p in patches if os.path.basename(p).startswith(sel) or (os.path.basename(p) == "patch.diff" and ("seeded/" + os.path.basename(os.path.dirname(p))).startswith(sel))]
     results = []
     for p in patches:
         r = run_one(p, seed, with_tests)
